@@ -3,7 +3,7 @@ EXTENDS Err
 Sizes == {1, 2, 3}
 Q_TS == UNION { UNION { {StT(N, R, 1, FALSE) : R \in RankProfiles(d, {2})} : N \in SeqsOf(Sizes, d) } : d \in 1..2 }
         \cup { StT(<<2, 3, 2>>, <<1, 2, 2, 1>>, 1, FALSE), StT(<<3, 1, 2>>, <<1, 2, 3, 1>>, 1, FALSE), StT(<<2, 2>>, <<1, 2, 1>>, 1, TRUE),
-               StT(<<4, 2>>, <<1, 2, 1>>, 1, FALSE) }
+               StT(<<4, 2>>, <<1, 2, 1>>, 1, FALSE), StT(<<2, 3>>, <<1, 1, 1>>, 1, FALSE), StT(<<2, 3, 2>>, <<1, 2, 1, 1>>, 1, FALSE) }
 Q_MS == UNION { {StM(mn[1], mn[2], <<1, 1>>, 1, FALSE) : mn \in SeqsOf({1, 2, 3}, 1) \X SeqsOf({1, 2, 3}, 1)} }
         \cup { StM(<<2, 3>>, <<3, 2>>, <<1, 2, 1>>, 1, FALSE), StM(<<2, 2>>, <<2, 2>>, <<1, 2, 1>>, 1, FALSE), StM(<<3, 2>>, <<3, 2>>, <<1, 3, 1>>, 1, FALSE),
                StM(<<2, 1, 2>>, <<2, 3, 2>>, <<1, 2, 2, 1>>, 1, FALSE), StM(<<2, 2>>, <<2, 2>>, <<1, 2, 1>>, 1, TRUE) }
